@@ -307,4 +307,129 @@ def molecularMassPico (m : Mol) : Except PyErr Nat :=
     | none => .error .typeError
     | some s => .ok s
 
+/-! ## `implicify_hydrogens` / `explicify_hydrogens` (the operations that *write* hydrogen counts besides `calc_implicit`) -/
+
+/-- bonds entering `explicit_sum`/`explicit_dict` inside `implicify_hydrogens`: only special bonds (8) are skipped —
+    an aromatic bond contributes its order 4 there ("aromatic rings don't match any rule") -/
+def counted8 (bs : List BE) : List BE := bs.filter fun b => b.1 != 8
+
+inductive ScanStep where
+  | stop            -- `valence_rules` raised `ValenceError`: `break`
+  | found (h : Nat) -- a rule matches with `h >= i`
+  | next            -- no such rule: `continue` with one explicit hydrogen fewer
+  deriving Repr, DecidableEq
+
+/-- one iteration of `for i in range(len_h, 0, -1)`: `bs` are the bonds of the atom except those to `hs[:i]` -/
+def scanStep (t : Rules) (c : Int) (r : Bool) (bs : List BE) (i : Nat) : ScanStep :=
+  match valenceRules t c r (((counted8 bs).map (·.1)).sum) with
+  | none => .stop
+  | some rules =>
+    match rules.find? fun q => ruleMatches ((counted8 bs).foldl dictIncr []) q && decide (q.h ≥ i) with
+    | some q => .found q.h
+    | none => .next
+
+/-- the scan of `implicify_hydrogens` for one heavy atom: `others` = its bonds to atoms that are not removable
+    hydrogens, `lenH` = number of removable hydrogens; tries to remove `i = lenH, lenH-1, …, 1` of them.
+    `some (i, h)`: the first `i` hydrogens are removed and the atom's count becomes `h`. -/
+def implicifyScan (t : Rules) (c : Int) (r : Bool) (others : List BE) (lenH : Nat) : Nat → Option (Nat × Nat)
+  | 0 => none
+  | i + 1 =>
+    match scanStep t c r (others ++ List.replicate (lenH - (i + 1)) (1, 1)) (i + 1) with
+    | .stop => none
+    | .found h => some (i + 1, h)
+    | .next => implicifyScan t c r others lenH i
+
+/-- `explicit[m].append(n)` on a `defaultdict(list)` -/
+def listDictAppend : List (Nat × List Nat) → Nat → Nat → List (Nat × List Nat)
+  | [], k, v => [(k, [v])]
+  | (k', vs) :: tl, k, v => if k' == k then (k', vs ++ [v]) :: tl else (k', vs) :: listDictAppend tl k v
+
+inductive OpErr where
+  | valenceError   -- chython.exceptions.ValenceError
+  | keyError       -- a missing atom / element (malformed structure)
+  deriving Repr, DecidableEq
+
+/-- first loop of `implicify_hydrogens`: heavy atom ↦ its removable explicit hydrogens (protium or unlabelled,
+    single bonded, not H–H); raises `ValenceError` for a hydrogen with two bonds or a multiple bond. -/
+def collectExplicit (m : Mol) : List (Nat × Atom) → List (Nat × List Nat) → Except OpErr (List (Nat × List Nat))
+  | [], acc => .ok acc
+  | (n, a) :: tl, acc =>
+    if a.z == 1 && (a.isotope == none || a.isotope == some 1) then
+      match m.adj.lookup n with
+      | none => .error .keyError
+      | some nb =>
+        if nb.length > 1 then .error .valenceError
+        else
+          let rec go : List (Nat × Bond) → List (Nat × List Nat) → Except OpErr (List (Nat × List Nat))
+            | [], acc => .ok acc
+            | (k, b) :: rest, acc =>
+              if b.order == 1 then
+                match m.atoms.lookup k with
+                | none => .error .keyError
+                | some x => if x.z != 1 then go rest (listDictAppend acc k n) else go rest acc
+              else if b.order != 8 then .error .valenceError
+              else go rest acc
+          match go nb acc with
+          | .error e => .error e
+          | .ok acc' => collectExplicit m tl acc'
+    else collectExplicit m tl acc
+
+/-- second loop: for every heavy atom with removable hydrogens run the scan; returns (`to_remove`, `fixed`) -/
+def scanAll (m : Mol) : List (Nat × List Nat) → List Nat → List (Nat × Nat) → Except OpErr (List Nat × List (Nat × Nat))
+  | [], rem, fixed => .ok (rem, fixed)
+  | (n, hs) :: tl, rem, fixed =>
+    match m.atoms.lookup n, m.adj.lookup n with
+    | some a, some nb =>
+      match (nb.filter fun kb => !hs.contains kb.1).mapM (nbrEntry m.atoms), tableOf a.z with
+      | some others, some t =>
+        match implicifyScan t a.charge a.radical others hs.length hs.length with
+        | some (i, h) => scanAll m tl (rem ++ hs.take i) (fixed ++ [(n, h)])
+        | none => scanAll m tl rem fixed
+      | _, _ => .error .keyError
+    | _, _ => .error .keyError
+
+/-- `implicify_hydrogens` on the atom/bond tables (labels and stereo are outside this model) -/
+def implicify (m : Mol) : Except OpErr Mol :=
+  match collectExplicit m m.atoms [] with
+  | .error e => .error e
+  | .ok ex =>
+    match scanAll m ex [] [] with
+    | .error e => .error e
+    | .ok (rem, fixed) =>
+      let atoms := (m.atoms.filter fun p => !rem.contains p.1).map fun p =>
+        match fixed.lookup p.1 with
+        | some h => (p.1, withH p.2 (some h))
+        | none => p
+      let adj := (m.adj.filter fun p => !rem.contains p.1).map fun p =>
+        (p.1, p.2.filter fun kb => !rem.contains kb.1)
+      .ok ⟨atoms, adj⟩
+
+/-- `[n] * a.implicit_hydrogens` for every atom; `none` = `TypeError` → `ValenceError` -/
+def toAdd : List (Nat × Atom) → Option (List Nat)
+  | [] => some []
+  | (n, a) :: tl => match a.implH, toAdd tl with
+    | some h, some rest => some (List.replicate h n ++ rest)
+    | _, _ => none
+
+/-- the loop of `explicify_hydrogens`: new hydrogens numbered from `nxt` upwards -/
+def addHydrogens : List Nat → Nat → Mol → Mol
+  | [], _, m => m
+  | n :: tl, nxt, m =>
+    let b : Bond := ⟨1, none⟩
+    let atoms := (m.atoms.map (setHEntry n (some 0))) ++ [(nxt, { z := 1, implH := some 0 })]
+    let adj := (m.adj.map fun p => if p.1 == n then (p.1, p.2 ++ [(nxt, b)]) else p) ++ [(nxt, [(n, b)])]
+    addHydrogens tl (nxt + 1) ⟨atoms, adj⟩
+
+/-- `explicify_hydrogens()` (default `start_map`) -/
+def explicify (m : Mol) : Except OpErr Mol :=
+  match toAdd m.atoms with
+  | none => .error .valenceError
+  | some [] => .ok m
+  | some l => .ok (addHydrogens l (m.ids.foldl max 0 + 1) m)
+
+/-- total number of hydrogens of a molecule: explicit H atoms + Σ implicit; `none` if a mark is missing -/
+def totalHydrogens (m : Mol) : Option Nat :=
+  (implicitTotal m.atoms).map (· + (m.atoms.filter (·.2.z == 1)).length)
+
+
 end ChythonModel.Model.Valence
